@@ -653,27 +653,74 @@ fn tp_slice(base: &[u8], t: &Option<TransportSlice>) -> String {
     }
 }
 
+/// the convenience accessors of the packet types, against the layers they summarise
+fn helper_mismatch_sliced(p: &SlicedPacket) -> bool {
+    let ids: Vec<u16> = p
+        .link_exts
+        .iter()
+        .filter_map(|e| match e {
+            LinkExtSlice::Vlan(v) => Some(v.vlan_identifier().value()),
+            _ => None,
+        })
+        .collect();
+    let got: Vec<u16> = p.vlan_ids().iter().map(|v| v.value()).collect();
+    let vl = match p.vlan() {
+        None => 0,
+        Some(VlanSlice::SingleVlan(_)) => 1,
+        Some(VlanSlice::DoubleVlan(_)) => 2,
+    };
+    let frag = match &p.net {
+        Some(NetSlice::Ipv4(v)) => v.payload().fragmented,
+        Some(NetSlice::Ipv6(v)) => v.payload().fragmented,
+        _ => false,
+    };
+    let pet = p.payload_ether_type();
+    let pet_ok = if p.net.is_some() || p.transport.is_some() {
+        pet.is_none()
+    } else {
+        pet == p.ether_payload().map(|e| e.ether_type) || p.ether_payload().is_none()
+    };
+    ids != got || vl != ids.len().min(2) || frag != p.is_ip_payload_fragmented() || !pet_ok
+}
+
 fn sliced(base: &[u8], p: &SlicedPacket) -> String {
     // formatting must not panic either
     let _ = format!("{:?}", p);
     format!(
-        "ok(link={};exts=[{}];net={};tp={};stop=none)",
+        "ok(link={};exts=[{}];net={};tp={};stop=none){}",
         link_slice(base, &p.link),
         p.link_exts.iter().map(|e| ext_slice(base, e)).collect::<Vec<_>>().join(","),
         net_slice(base, &p.net),
-        tp_slice(base, &p.transport)
+        tp_slice(base, &p.transport),
+        if helper_mismatch_sliced(p) { "!accessor-mismatch" } else { "" }
     )
 }
 
 fn lax_sliced(base: &[u8], p: &LaxSlicedPacket) -> String {
     let _ = format!("{:?}", p);
+    let ids: Vec<u16> = p
+        .link_exts
+        .iter()
+        .filter_map(|e| match e {
+            LaxLinkExtSlice::Vlan(v) => Some(v.vlan_identifier().value()),
+            _ => None,
+        })
+        .collect();
+    let got: Vec<u16> = p.vlan_ids().iter().map(|v| v.value()).collect();
+    let vl = match p.vlan() {
+        None => 0,
+        Some(VlanSlice::SingleVlan(_)) => 1,
+        Some(VlanSlice::DoubleVlan(_)) => 2,
+    };
+    let mism = ids != got || vl != ids.len().min(2);
     format!(
-        "ok(link={};exts=[{}];net={};tp={};stop={})",
+        "ok(link={};exts=[{}];net={};tp={};stop={}){}",
         link_slice(base, &p.link),
         p.link_exts.iter().map(|e| lax_ext_slice(base, e)).collect::<Vec<_>>().join(","),
         lax_net_slice(base, &p.net),
         tp_slice(base, &p.transport),
-        stop(&p.stop_err)
+        stop(&p.stop_err),
+        if mism { "!accessor-mismatch" } else { "" }
     )
 }
 
@@ -795,28 +842,48 @@ fn lax_pay(base: &[u8], p: &LaxPayloadSlice) -> String {
     }
 }
 
+fn vlan_helpers_mismatch(exts: &[LinkExtHeader], got: Vec<u16>, vl: Option<VlanHeader>) -> bool {
+    let ids: Vec<u16> = exts
+        .iter()
+        .filter_map(|e| match e {
+            LinkExtHeader::Vlan(v) => Some(v.vlan_id.value()),
+            _ => None,
+        })
+        .collect();
+    let n = match vl {
+        None => 0,
+        Some(VlanHeader::Single(_)) => 1,
+        Some(VlanHeader::Double(_)) => 2,
+    };
+    ids != got || n != ids.len().min(2)
+}
+
 fn headers(base: &[u8], p: &PacketHeaders) -> String {
     let _ = format!("{:?}", p);
+    let mism = vlan_helpers_mismatch(&p.link_exts, p.vlan_ids().iter().map(|v| v.value()).collect(), p.vlan());
     format!(
-        "ok(link={};exts=[{}];net={};tp={};pay={};stop=none)",
+        "ok(link={};exts=[{}];net={};tp={};pay={};stop=none){}",
         h_link(&p.link),
         p.link_exts.iter().map(h_ext).collect::<Vec<_>>().join(","),
         h_net(&p.net),
         h_tp(&p.transport),
-        pay(base, &p.payload)
+        pay(base, &p.payload),
+        if mism { "!accessor-mismatch" } else { "" }
     )
 }
 
 fn lax_headers(base: &[u8], p: &LaxPacketHeaders) -> String {
     let _ = format!("{:?}", p);
+    let mism = vlan_helpers_mismatch(&p.link_exts, p.vlan_ids().iter().map(|v| v.value()).collect(), p.vlan());
     format!(
-        "ok(link={};exts=[{}];net={};tp={};pay={};stop={})",
+        "ok(link={};exts=[{}];net={};tp={};pay={};stop={}){}",
         h_link(&p.link),
         p.link_exts.iter().map(h_ext).collect::<Vec<_>>().join(","),
         h_net(&p.net),
         h_tp(&p.transport),
         lax_pay(base, &p.payload),
-        stop(&p.stop_err)
+        stop(&p.stop_err),
+        if mism { "!accessor-mismatch" } else { "" }
     )
 }
 
